@@ -470,6 +470,14 @@ class Engine:
             gv, a = self.spec_eval(text, env, ghosts=ghosts)
             ghosts[g] = gv
             assumes += a
+        if not ctx.spec and self.cur is not None and q == self.cur.qual and c.d.get('measure'):
+            # a recursive call: the callee's measure is non-negative and strictly below the caller's (termination of the recursion)
+            mc, am = self.spec_eval(c.d['measure'], env, ghosts=ghosts)
+            for x in am:
+                ctx.assume(x)
+            m0 = getattr(self.cur, 'measure_val', None)
+            if m0 is not None:
+                ctx.side.append((f'recursion-measure-decreases@{line}', ctx.guard_term(), z3.And(to_int(mc) >= 0, to_int(mc) < to_int(m0))))
         if not ctx.spec:
             for lab, text in _labelled(c.requires):
                 g, a = self.spec_bool(text, env, ghosts=ghosts)
@@ -485,6 +493,8 @@ class Engine:
                 g, a = self.spec_bool(cond, env, ghosts=ghosts)
                 for x in a:
                     ctx.assume(x)
+                if c.d.get('raises_inexact'):
+                    g = z3.And(g, fresh('mayraise', z3.BoolSort()))     # "only if": under the condition the callee MAY raise
                 ctx.exc(cls, g, line)
         rty = c.ty(c.returns)
         if c.d.get('pure'):
